@@ -291,6 +291,22 @@ def replay_path(run, fs, g, path, rng, base):
                                   i, kind, variant, fmt, got if st == "error" else ("nothing" if got is None else "a different config"),
                                   "existed" if prev is not None else "did not exist"), {"trail": trail, "boundary": i, "op": kind, "ops": fs.kinds})
                 ok = False
+            # a save interrupted there is simply made again after the restart: the same save, completed in that tree, is what loads
+            if good and ok and variant == "flushed":
+                os.environ["XDG_CONFIG_HOME"] = d
+                fs.hook = None
+                try:
+                    ConfigManager().save(PROFILE, cfg, stype)
+                    st2, got2 = load_from(d, PROFILE)
+                except Exception as e:
+                    st2, got2 = "error", "%s: %s" % (type(e).__name__, e)
+                finally:
+                    os.environ["XDG_CONFIG_HOME"] = root
+                run.case(("resave-after-crash", len(trail), i, fmt))
+                if st2 != "ok" or got2 != want:
+                    run.violation("crash:resave:%s" % fmt, "process death before file operation #%d (%s) of save(%s), then the same save made again and completed: the profile loads as %s" % (
+                        i, kind, fmt, got2 if st2 == "error" else ("nothing" if got2 is None else "a different (the old) config")), {"trail": trail, "boundary": i, "op": kind})
+                    ok = False
             shutil.rmtree(d, ignore_errors=True)
         if err is None:
             for what, label in ((PROFILE, "profile-name"), (PROFILE, "YowProfile.config")):
@@ -346,6 +362,41 @@ def fresh_config_home(run, rng, base):
             os.environ.pop("XDG_CONFIG_HOME", None)
         else:
             os.environ["XDG_CONFIG_HOME"] = old
+
+
+def profile_named_directory(run, rng, base):
+    """Loading by profile name when the working directory happens to contain a DIRECTORY of that name (the client started from its own
+    configuration directory): the profile's stored configuration is what loads."""
+    from yowsup.config.manager import ConfigManager
+    old_env, old_cwd = os.environ.get("XDG_CONFIG_HOME"), os.getcwd()
+    top = tempfile.mkdtemp(prefix="cwd_", dir=base)
+    try:
+        os.environ["XDG_CONFIG_HOME"] = os.path.join(top, "home")
+        os.makedirs(os.path.join(top, "home"))
+        for fmt in ("json", "keyval"):
+            cfg = gen_config(rng, fmt)
+            want = cfg_key(cfg)
+            ConfigManager().save(PROFILE, cfg, ConfigManager.TYPE_JSON if fmt == "json" else ConfigManager.TYPE_KEYVAL)
+            work = os.path.join(top, "work_" + fmt)
+            os.makedirs(os.path.join(work, PROFILE))
+            os.chdir(work)
+            run.case(("profile-named-directory", fmt))
+            try:
+                st, got = load_from(os.environ["XDG_CONFIG_HOME"], PROFILE)
+            except Exception as e:
+                st, got = "error", "%s: %s" % (type(e).__name__, e)
+            finally:
+                os.chdir(old_cwd)
+            if st != "ok" or got != want:
+                run.violation("roundtrip:%s:profile-named-directory" % fmt, "save(%s), then load by profile name from a working directory that contains a directory of that name: %s" % (
+                    fmt, got if st == "error" else ("nothing" if got is None else "a different config")), {"fmt": fmt})
+    finally:
+        os.chdir(old_cwd)
+        if old_env is None:
+            os.environ.pop("XDG_CONFIG_HOME", None)
+        else:
+            os.environ["XDG_CONFIG_HOME"] = old_env
+        shutil.rmtree(top, ignore_errors=True)
 
 
 def path_roundtrips(run, rng, base, n):
@@ -456,6 +507,7 @@ def run():
             r.cov["traces_validated_against_impl"] += 1
         path_roundtrips(r, rng, work, 400 if thorough else 80)
         fresh_config_home(r, rng, work)
+        profile_named_directory(r, rng, work)
         one_manager_history(r, rng, work, 200 if thorough else 40)
     finally:
         shutil.rmtree(work, ignore_errors=True)
